@@ -160,8 +160,7 @@ def prove(ctx, prop_mods, extra_targets=("mlsmodel",), thorough_leanchecker=True
     from . import translate_all
     tok, tout = translate_all.run(ctx)
     ctx.cov["translator"] = tout.strip()[-300:]
-    if not tok:
-        ctx.proof_failure = {"stage": "translate", "log": tout[-1500:]}
+    translate_failed = {} if tok else (translate_all.failed_generators() or {"*": tout[-300:]})
     ok, out, dt = lake_build(list(prop_mods) + list(extra_targets))
     ctx.log(f"lake build {' '.join(prop_mods)}: {'ok' if ok else 'FAILED'} ({dt:.1f}s)")
     thms = []
@@ -173,6 +172,13 @@ def prove(ctx, prop_mods, extra_targets=("mlsmodel",), thorough_leanchecker=True
     mods = set()
     for m in prop_mods:
         transitive_imports(m, mods)
+    # a generator that cannot read the current source breaks the tie of exactly those properties whose theorems are
+    # instantiated at its output (their modules import the generated file); the others are not affected
+    hit = {g: why for g, why in translate_failed.items() if g == "*" or f"MlsVerif.Gen.{g}" in mods}
+    if hit:
+        ctx.proof_failure = {"stage": "translate", "log": json.dumps(hit)[:1500]}
+    elif translate_failed:
+        ctx.log("translate: generators failed that this property does not depend on: " + ", ".join(sorted(translate_failed)))
     forb = forbidden_scan(lean_module_files(sorted(mods)))
     axioms = {}
     bad = []
